@@ -1,4 +1,4 @@
-// positive example for R03a..R03d: racy task bodies and a broken reduction.  Never executed.
+// positive example for R03a..R03f: racy task bodies and a broken reduction.  Never executed.
 #include <cstddef>
 #include <functional>
 #include <limits>
@@ -85,8 +85,23 @@ inline cycle_t bad_reduce(std::size_t n) {
                 return best;                             // R03c: does not return the accumulator
             }, join);
 }
+inline double paired_by_position(const std::vector<double> &w) {
+    tbb::concurrent_vector<double> out;
+    tbb::parallel_for(tbb::blocked_range<std::size_t>(0, w.size()), [&](const tbb::blocked_range<std::size_t> &r) {
+        for (std::size_t i = r.begin(); i != r.end(); ++i) {
+            out.push_back(2 * w[i]);
+        }
+    });
+    double s = 0;
+    auto it = w.begin();
+    for (auto x : out) {                                 // R03f: element j of `out` is whichever task finished j-th, not 2 * w[j]
+        s += x * *it;
+        ++it;
+    }
+    return s;
+}
 }
 double use_c03(std::vector<double> &w, std::vector<std::vector<int>> &rows) {
     positive::racy_rows(rows, 1);
-    return positive::racy_sum(w) + positive::early_read() + std::get<1>(positive::bad_reduce(10)) + std::get<1>(positive::carried_state(10, std::set<int>()));
+    return positive::paired_by_position(w) + positive::racy_sum(w) + positive::early_read() + std::get<1>(positive::bad_reduce(10)) + std::get<1>(positive::carried_state(10, std::set<int>()));
 }
